@@ -113,6 +113,7 @@ class CCodeGenerator(CodeGenerator):
             "\n".join(
                 [
                     "#include <math.h>",
+                    "#include <stdbool.h>",
                     "#include <string.h>\n",
                 ]
             )
